@@ -38,6 +38,9 @@ type Scenario struct {
 	MaxExec     int64
 	Body        func()
 	MinOutcomes int // vacuity guard: fewer distinct outcomes is a harness error
+	// MaxFreeSwitches > 0 bounds the non-default choices among runnable threads at points where the running
+	// thread blocked or ended (they cost no deviation; unbounded by default).
+	MaxFreeSwitches int
 }
 
 type workerResult struct {
@@ -51,22 +54,22 @@ type groupFound struct {
 }
 
 type groupResult struct {
-	Scenarios      int
-	Executions     int64
-	Blocked        int64
-	Steps          int64
-	Points         int64
-	DetChecked     int64
-	Outcomes       int64 // sum over scenarios of distinct outcomes
-	SingleOutcome  int   // scenarios with exactly one distinct outcome
-	MaxTrace       int
-	MaxThreads     int
-	ByCost         []int64
-	NonExhaustive  []string
-	MinBound       int
-	Found          []groupFound
-	Samples        []string
-	HarnessError   string
+	Scenarios     int
+	Executions    int64
+	Blocked       int64
+	Steps         int64
+	Points        int64
+	DetChecked    int64
+	Outcomes      int64 // sum over scenarios of distinct outcomes
+	SingleOutcome int   // scenarios with exactly one distinct outcome
+	MaxTrace      int
+	MaxThreads    int
+	ByCost        []int64
+	NonExhaustive []string
+	MinBound      int
+	Found         []groupFound
+	Samples       []string
+	HarnessError  string
 }
 
 type replayCase struct {
@@ -84,7 +87,7 @@ func cfgOf(s Scenario) vsched.ExploreConfig {
 	if ms == 0 {
 		ms = 20000
 	}
-	return vsched.ExploreConfig{Bound: s.Bound, MaxSteps: ms, EarlyTimers: s.EarlyTimers, MaxExec: s.MaxExec, DetEvery: 997}
+	return vsched.ExploreConfig{Bound: s.Bound, MaxSteps: ms, EarlyTimers: s.EarlyTimers, MaxExec: s.MaxExec, DetEvery: 997, MaxFreeSwitches: s.MaxFreeSwitches}
 }
 
 // Run executes all scenarios (or acts as worker / replayer, depending on flags). It does not call r.Finish().
@@ -284,13 +287,13 @@ func runGroup(r *ev.Run, g string, scs []Scenario) {
 	sub.Validated = det
 	sub.BoundCompleted = fmt.Sprintf("%d scenarios, each: all executions with <=%d deviations", scen, minBound)
 	sub.Extra = map[string]any{
-		"scenarios":                      scen,
-		"scenarios_with_single_outcome":  single,
-		"executions_by_deviation_count":  byCost,
-		"choice_points":                  points,
-		"max_choice_points_per_run":      maxTrace,
-		"max_threads":                    maxThreads,
-		"workers":                        workers,
+		"scenarios":                     scen,
+		"scenarios_with_single_outcome": single,
+		"executions_by_deviation_count": byCost,
+		"choice_points":                 points,
+		"max_choice_points_per_run":     maxTrace,
+		"max_threads":                   maxThreads,
+		"workers":                       workers,
 	}
 }
 
@@ -540,6 +543,9 @@ func runScenario(r *ev.Run, s Scenario) {
 	sub.Transitions = steps
 	sub.Validated = detChecked
 	sub.BoundCompleted = fmt.Sprintf("all executions with <=%d deviations (requested bound %d)", bound, s.Bound)
+	if s.MaxFreeSwitches > 0 {
+		sub.BoundCompleted += fmt.Sprintf(" and <=%d non-default choices among runnable threads where the running thread blocked or ended", s.MaxFreeSwitches)
+	}
 	sub.Extra = map[string]any{
 		"executions_by_deviation_count": byCost,
 		"choice_points":                 points,
